@@ -83,6 +83,16 @@ type RWMutex struct {
 	real    real.RWMutex
 	writer  bool
 	readers int
+	waiting []*sched.Task // tasks blocked in Lock: as in Go, a waiting writer keeps new readers out
+}
+
+func (m *RWMutex) writerWaiting() bool {
+	for _, t := range m.waiting {
+		if t.Alive() {
+			return true
+		}
+	}
+	return false
 }
 
 func (m *RWMutex) Lock() {
@@ -94,7 +104,16 @@ func (m *RWMutex) Lock() {
 	if w.Inert() {
 		return
 	}
+	me := w.CurTask()
+	m.waiting = append(m.waiting, me)
 	w.Yield(&sched.Op{Kind: "lock", Path: "rwmutex", Block: true, Enabled: func() bool { return !m.writer && m.readers == 0 }})
+	keep := m.waiting[:0]
+	for _, t := range m.waiting {
+		if t != me {
+			keep = append(keep, t)
+		}
+	}
+	m.waiting = keep
 	m.writer = true
 	w.Acquire(m)
 }
@@ -124,7 +143,7 @@ func (m *RWMutex) RLock() {
 	if w.Inert() {
 		return
 	}
-	w.Yield(&sched.Op{Kind: "rlock", Path: "rwmutex", Block: true, Enabled: func() bool { return !m.writer }})
+	w.Yield(&sched.Op{Kind: "rlock", Path: "rwmutex", Block: true, Enabled: func() bool { return !m.writer && !m.writerWaiting() }})
 	m.readers++
 	w.Acquire(m)
 }
